@@ -375,6 +375,22 @@ func implCtrl(p *toks) string {
 		sys := p.hexb()
 		rc := p.nat()
 		return showCtrl(ast.NewHSMSMessageRejectReq(uint16(sid), byte(pt), byte(st), sys, byte(rc)))
+	case "twice":
+		kind, _ := p.next()
+		req := ast.NewHSMSControlMessage(p.hexb())
+		c1, c2 := p.nat(), p.nat()
+		mk := func(code int) ast.HSMSMessage {
+			switch kind {
+			case "selectrsp":
+				return ast.NewHSMSMessageSelectRsp(req, byte(code))
+			case "deselectrsp":
+				return ast.NewHSMSMessageDeselectRsp(req, byte(code))
+			}
+			return ast.NewHSMSMessageLinktestRsp(req)
+		}
+		r1 := showCtrl(mk(c1))
+		r2 := showCtrl(mk(c2))
+		return r1 + " | " + r2 + " | " + showCtrl(req)
 	case "selectrsp":
 		req := ast.NewHSMSControlMessage(p.hexb())
 		return showCtrl(ast.NewHSMSMessageSelectRsp(req, byte(p.nat())))
